@@ -34,6 +34,15 @@ def cases(tier, seed):
                 if tier == "quick" and nb >= 2 and i % 3 and rule != "PluralityVeto":
                     continue
                 cs.append((rule, cands, bl, 1 + i % 3, ("borda", "random", None)[i % 3]))
+    # two candidates over the quota in the same round with different tallies (one-by-one seating then differs from simultaneous)
+    j = 0
+    for cands, bl in gen.profiles_exhaustive(3, 3, [F(1), F(3), F(4)]):
+        if len({next(iter(r[0])) for r, _ in bl}) == 3 and sorted(w for _, w in bl) == [1, 3, 4]:
+            j += 1
+            if tier == "quick" and j % 3:
+                continue
+            for rule in ("Alaska1", "STV1", "STV"):
+                cs.append((rule, cands, bl, 2, "borda"))
     if tier == "thorough":
         rng = random.Random(seed)
         for cands, bl in gen.profiles_random(rng, 2500, ncands_range=(3, 5), nballots_range=(2, 6)):
